@@ -727,3 +727,92 @@ def check_candidate_predicate(facts, rep):
     else:
         rep.ok('E5.L8-candidate-is-unit', inst, '%d points of the decision table folded' % n)
     rep.floor('E5.L8 decision-table points of is_cand', n, 18)
+
+
+def check_union_canonical(facts, rep):
+    """L9 (C12, "the same value on one thread and on many"): group_cols issues its unions from a parallel scan, in an
+    order that depends on the schedule; the blocks come out in the order of their union-find *roots*. The result is
+    schedule-independent only if the root of a class does not depend on the order of the unions, i.e. if union(i, j)
+    always hangs the larger root under the smaller (the root of a class is then its minimum). UnionFind::union is folded
+    over every order of (root(i), root(j)): the only parent write is p[max] = min, none when they are equal."""
+    import re
+    from symex import SymEx, show, strip
+    U = 'yui::misc::union_find::UnionFind::union'
+    b = facts.bodies.get(U)
+    if b is None:
+        rep.indet('E5.L9: UnionFind::union not found')
+        return
+    rep.saw(b)
+
+    def dk(t):
+        return re.sub(r'#(?:i\d+:)?\d+\.\d+', '', show(t, -1000)).replace('&mut ', '').replace('&', '').replace('*', '')
+    RI, RJ = 'root(arg1, arg2)', 'root(arg1, arg3)'
+    bad, unknown = [], []
+    n = 0
+    for p in SymEx(b, max_paths=2000).run():
+        if p.end != 'return':
+            continue
+        # which orders of (ri, rj) take this path
+        region = set((x, y) for x in range(3) for y in range(3))
+        for e in p.branches():
+            s = dk(e.term)
+            m = None
+            for a_, b_ in ((RI, RJ), (RJ, RI)):
+                if s == 'discr(cmp(%s, %s))' % (a_, b_):
+                    m = (a_, b_)
+            m2 = None
+            for op_ in ('Lt', 'Le', 'Gt', 'Ge', 'Eq', 'Ne'):
+                for a_, b_ in ((RI, RJ), (RJ, RI)):
+                    if s == '%s(%s, %s)' % (op_, a_, b_):
+                        m2 = (op_, a_, b_)
+            if m:
+                sw = m[0] == RJ
+                def o(x, y):
+                    x, y = (y, x) if sw else (x, y)
+                    return 255 if x < y else (1 if x > y else 0)
+                if e.value == 'else':
+                    region = {(x, y) for (x, y) in region if o(x, y) not in (e.args or ())}
+                else:
+                    region = {(x, y) for (x, y) in region if o(x, y) == e.value}
+            elif m2:
+                sw = m2[1] == RJ
+                def h(x, y):
+                    x, y = (y, x) if sw else (x, y)
+                    return {'Lt': x < y, 'Le': x <= y, 'Gt': x > y, 'Ge': x >= y, 'Eq': x == y, 'Ne': x != y}[m2[0]]
+                region = {(x, y) for (x, y) in region if h(x, y) == (e.value != 0)}
+            elif (e.name or '').startswith('assert:'):
+                continue
+            else:
+                unknown.append('condition %s' % s[:80])
+        ws = []
+        for e in p.events:
+            if e.kind == 'write':
+                lv = dk(('mref', e.lv)) if False else re.sub(r'#(?:i\d+:)?\d+\.\d+', '', __import__('symex').show_lv(e.lv)).replace('&mut ', '').replace('&', '').replace('*', '')
+                m = re.match(r'index_mut\(arg1\.p, (.*)\)$', lv)
+                if m:
+                    ws.append((m.group(1), dk(e.term)))
+                else:
+                    unknown.append('write to %s' % lv[:60])
+        n += 1
+        for (x, y) in sorted(region):
+            val = {RI: x, RJ: y}
+            if x == y:
+                if ws:
+                    bad.append('a parent is rewritten although both elements already have the same root')
+                continue
+            if len(ws) != 1 or ws[0][0] not in val or ws[0][1] not in val:
+                if not ws:
+                    bad.append('no parent is written when the roots differ (%s)' % ('root(i) < root(j)' if x < y else 'root(i) > root(j)'))
+                else:
+                    unknown.append('parent writes %s' % ws[:2])
+                continue
+            child, parent = val[ws[0][0]], val[ws[0][1]]
+            if not (child == max(x, y) and parent == min(x, y)):
+                bad.append('for %s the root %d is hung under %d: the representative of the merged class is not its smallest root, it depends on the order in which the unions arrive' % ('root(i) < root(j)' if x < y else 'root(i) > root(j)', child, parent))
+    inst = 'UnionFind::union|the larger root is hung under the smaller (class representative = minimum, independent of the union order)'
+    if bad:
+        rep.violation('E5.L9-canonical-root', inst, 'UnionFind::union: %s; dir_sum_decomp issues its unions from a parallel scan and lists the blocks by root, so the block order and the permutations change with the thread schedule' % sorted(set(bad))[0], where=b.where())
+    elif unknown or not n:
+        rep.indet('E5.L9: UnionFind::union outside the recognised fragment: %s' % sorted(set(unknown))[:2])
+    else:
+        rep.ok('E5.L9-canonical-root', inst, '%d paths folded over the 9 orders of (root(i), root(j))' % n)
